@@ -247,3 +247,32 @@ def register_sum_sizes(src):
             Case('ok', 'return', lambda pre: t.TRUE, ensures=_sum_size_ok, rkind=rk_dyn),
             Case('no-size', 'raise', lambda pre: t.TRUE),
         ], tags=('C05', 'C03'))
+
+
+# ================================================================================================ GreedyRange._build
+# Every supplied element is built in order, each with _index equal to its position, appending after the previous one (the same
+# specification fold as Array._build, over as many elements as were supplied); a StopFieldError ends the range.
+def _gr_build_ok(pre, post):
+    o, o2 = S_(pre), post.obj('stream')
+    n = t.app('dyn_len', t.INT, pre['obj'].t)
+    F = abfold(pre, n)
+    r = post.st.get(post.result) if isinstance(post.result, VRef) else None
+    if r is None:
+        # left through the StopFieldError handler: nothing is returned, nothing is claimed about how far it got
+        return []
+    out = [('elements-built-one-after-the-other-each-with-_index-equal-to-its-position', t.and_(bs('bs_ok', F), t.eq(o2.buf, bs('bs_buf', F)), t.eq(o2.len, bs('bs_len', F)), t.eq(o2.pos, bs('bs_pos', F))), T + ('C01',)),
+           ('scope-as-the-last-element-left-it', t.and_(t.eq(post.st.ghost['H'], bs('bs_H', F)), t.eq(post.st.ghost['D'], bs('bs_D', F))), ('C07',))]
+    if r.items is None:
+        j = t.var('abj!', t.INT)
+        discard = post.eng.truth(pre.self.fields['discard'], pre.st)
+        out.append(('returns-what-each-element-build-returned-in-order', t.and_(t.eq(r.len, t.ite(discard, t.ZERO, n)),
+                    t.forall([j], t.implies(t.and_(t.le(t.ZERO, j), t.lt(j, r.len)), t.eq(t.T(t.VAL, 'select', (r.arr, j)), abret(pre, j))), pats=[[t.T(t.VAL, 'select', (r.arr, j))]])), T + ('C01',)))
+    return out
+
+
+def register_greedyrange_build(src):
+    fcontract('GreedyRange', '_build', [
+        Case('ok', 'return', lambda pre: t.TRUE, ensures=_gr_build_ok, rkind=rk_dyn, modifies=['stream']),
+        Case('fails', 'raise', lambda pre: t.TRUE, ensures=generic_raise, modifies=['stream']),
+    ], loops={'for (i, e) in enumerate(obj)': LoopSpec(_build_inv, tags=T + ('C01',))}, tags=T + ('C01',), sequential_build=False,
+        requires=lambda pre: [('the-supplied-value-is-a-list-like-sequence', t.and_(t.app('dyn_sized', t.BOOL, pre['obj'].t), t.app('(_ is VOpq)', t.BOOL, pre['obj'].t)))])
